@@ -137,3 +137,58 @@ func c05ExecPNames(c c05Case, o *core.Obs) {
 		}
 	}
 }
+
+// selfrec part: a component that includes itself through its own shorthand tag
+// (a tree), compared with the same component written with <template include>.
+
+func c05NSelfRec() int { return 2 * 2 }
+
+func c05GenSelfRec(i int) c05Case {
+	return c05Case{Part: "selfrec", Entry: []string{"tpl", "vue"}[i%2], PN: &c05PN{Form: []string{"short", "include"}[(i/2)%2]}}
+}
+
+func c05ExecSelfRec(c c05Case, o *core.Obs) {
+	kid := `<tree-node v-for="k in node.kids" :node="k" :depth="k.name"></tree-node>`
+	if c.PN.Form == "include" {
+		kid = `<template include="components/TreeNode.vuego" v-for="k in node.kids" :node="k" :depth="k.name"></template>`
+	}
+	comp := `<li data-m="n" :data-d="depth">{{ node.name }}<ul v-if="node.kids">` + kid + `</ul></li>`
+	page := `<ul data-m="root"><tree-node :node="tree" depth="top"></tree-node></ul>`
+	files := map[string]string{"page.vuego": page, "components/TreeNode.vuego": comp}
+	leaf := func(n string) map[string]any { return map[string]any{"name": n} }
+	data := map[string]any{"tree": map[string]any{"name": "a", "kids": []any{
+		map[string]any{"name": "b", "kids": []any{leaf("c"), map[string]any{"name": "d", "kids": []any{leaf("e")}}}}, leaf("f")}}}
+	var b bytes.Buffer
+	var err error
+	fsys := memFS(files)
+	if c.Entry == "vue" {
+		v := vuego.NewVue(fsys)
+		v.RegisterComponent("tree-node", "components/TreeNode.vuego")
+		err = v.Render(&b, "page.vuego", data)
+	} else {
+		err = vuego.NewFS(fsys, vuego.WithComponents()).Load("page.vuego").Fill(data).Render(bg, &b)
+	}
+	o.Evals++
+	o.NT("selfrec", c.Entry, c.PN.Form)
+	o.Cell("part/selfrec/" + c.PN.Form)
+	sig := "selfrec/" + c.PN.Form
+	if err != nil {
+		o.Fail(c, sig+"/error", "render failed: %v\ncomponent: %s", err, comp)
+		return
+	}
+	var got []string
+	for _, n := range oracle.ParseAuto(b.String()).ByAttr("data-m", "n") {
+		d, _ := n.Attr("data-d")
+		own := ""
+		for _, k := range n.Kids {
+			if k.Kind == "text" {
+				own += k.Text
+			}
+		}
+		got = append(got, d+":"+strings.TrimSpace(own))
+	}
+	want := "top:a b:b c:c d:d e:e f:f"
+	if strings.Join(got, " ") != want {
+		o.Fail(c, sig+"/tree-not-rendered", "a component that includes itself (%s spelling): want nodes %q, got %q\ncomponent: %s\noutput: %s", c.PN.Form, want, strings.Join(got, " "), comp, clip(b.String(), 700))
+	}
+}
